@@ -40,6 +40,28 @@ extern "C"
             h_unlocking(1);
             return;
         }
+        if (use_save == 0 && depth == 1)
+        {
+            static thread_local int calls = 0;
+            if (++calls & 1)
+            {
+                // one long-lived wrapper object, locked twice by nested std::lock_guards (re-entry through the same object)
+                static igris::syslock shared_wrapper;
+                std::lock_guard<igris::syslock> outer(shared_wrapper);
+                h_locked(1);
+                *counter = *counter + 1;
+                {
+                    std::lock_guard<igris::syslock> inner(shared_wrapper);
+                    h_locked(2);
+                    *counter = *counter + 1;
+                    *counter = *counter + 1;
+                    h_unlocking(2);
+                }
+                *counter = *counter + 1;
+                h_unlocking(1);
+                return;
+            }
+        }
         if (use_save == 0 && depth == 3)
         {
             // the C functions and the C++ guard on the same lock, undone out of order: two acquisitions (C, then guard), one
